@@ -106,6 +106,10 @@ func checkC18(c *Ctx) {
 	c.borrow("C06", func() { c.c06Accessors(); c.c06WithTTL() }, func(o *coreObl) (string, bool) {
 		return "R18.1", o.Rule == "R06.7" && o.Construct == "SkipRead" || o.Rule == "R06.3" && o.Construct == "WithTTL"
 	})
+	// "a SkipRead read emits none": the metrics are emitted by PrepareRead, so a Read that reaches it (or returns a value) on a path that
+	// never established SkipRead(ctx) = false counts a hit / expired for a read that had to be skipped — every backend Read tests the
+	// flag itself or through the PrepareRead it calls (C07 R07.2; a guard hoisted into Trait.PrepareRead that TraitOf.PrepareRead lacks)
+	c.borrowKinds("C07", func() { c.skipReadRule("R07.2") }, "R18.1", "backends.Read:tests-SkipRead", []string{"R07.2"}, "no-skipread-test", "skipread-not-honoured", "skipread-untested")
 	// "the entries touched by ExpireAll / removed by DeleteAll": the batch operations visit every shard and every entry once, on the
 	// calling goroutine's own sequence (C07 R07.4) — what they count is what they visited
 	c.borrow("C07", func() {
